@@ -35,7 +35,10 @@ META = {
         "Pyoda.GenAgree.C05.gen_Precalc_getZoneIntervalNoTail_eq",
         "Pyoda.GenAgree.C05.gen_Precalc_getZoneIntervalNoTail_loop1_eq",
         "Pyoda.GenAgree.C05.gen_Precalc_getZoneIntervalTail_loop1_eq",
-        "Pyoda.GenAgree.C05.gen_Precalc_getZoneIntervalTail_eq",
+        "Pyoda.GenAgree.C05.gen_Precalc_getZoneIntervalTail_eq", "Pyoda.GenAgree.C05.gen_ZoneLocalMapping_count_eq",
+        "Pyoda.GenAgree.C05.gen_ZoneLocalMapping_first_eq", "Pyoda.GenAgree.C05.gen_ZoneLocalMapping_last_eq",
+        "Pyoda.GenAgree.C05.gen_ZoneLocalMapping_single_eq", "Pyoda.GenAgree.C05.gen_first_is_model",
+        "Pyoda.GenAgree.C05.gen_last_is_model", "Pyoda.GenAgree.C05.gen_single_is_model",
     ],
     "trusted_base": [
         "translator tie (tools/py2lean.py; generated file lean/PyodaGen/C05.lean shared by C04 and C05, agreement in PyodaProofs/GenAgreeC05.lean): DateTimeZone.map_local and its four helpers "
@@ -45,7 +48,7 @@ META = {
         "Trusted there: the translator's semantics (self-test of C03); the model's integer timeline as the representation of Instant / _LocalInstant / Duration / Offset objects (lean/PyodaGen/GlueC05.lean: comparisons, "
         "instant - Duration.epsilon and _LocalInstant._minus as range-checked integer subtraction, _minus_zero_offset as the identity, _days_since_epoch as floor division by a day — object-level arithmetic is tied by GenAgreeC03), "
         "ZoneInterval as the model's ZI with __local_start/__local_end = safe_plus of the bounds (what __init__ computes), ZoneLocalMapping._ctor keeping (early, late, count), the zone's own get_zone_interval and the tail zone's as abstract callees. "
-        "Outside the tie: ZoneLocalMapping.single/first/last and the resolvers (the model describes the instants of the returned ZonedDateTimes, the code builds them lazily), at_start_of_day, ZoneRecurrence / ZoneYearOffset",
+        "ZoneLocalMapping.count / single / first / last are tied too, with __build_zoned_date_time abstract: which interval is built and which of SkippedTimeError / AmbiguousTimeError / the unreachable RuntimeError is raised (single builds both candidates before raising AmbiguousTimeError), and with the model's reading of a built value (its instant, buildInstant) they are Mapping.first / last / single for count <= 2. Outside the tie: the stock resolvers (closures over ZonedDateTime objects), ZonedDateTime construction itself, at_start_of_day, ZoneRecurrence / ZoneYearOffset",
         "theorems are over an abstract zone `get` satisfying Partition, Bounded (|wall| <= 18 h) and MinLen (finite intervals >= 36 h); C04 establishes these for the model of the bundled zones from evaluated decidable checks with soundness theorems: dataOK_gives_spec (zones without a recurring tail, check dataOK) and zoneOK_gives_spec (zones with a recurring tail, check zoneOK: stored periods, tail rules through year 9999, seam, 36 h minimum); both are evaluated by the compiled driver on every zone each run (counts in the evidence notes of C04)",
         "domain of the main theorems: local instants at least 18 h inside the ends of time; nearer the ends the model keeps the code's sentinel logic and is compared by correspondence only",
     ],
